@@ -130,6 +130,9 @@ spec fn all_flags_supported(fs: Seq<CowStr>) -> bool {
 #[verifier::external_body]
 struct Transport { _p: () }
 
+// permission to remove one file below a directory: never granted in this unit
+uninterp spec fn file_removal_granted(dir: Seq<u8>, relpath: Seq<u8>) -> bool;
+
 impl Transport {
     uninterp spec fn dir(&self) -> Seq<u8>;
 
@@ -150,6 +153,14 @@ impl Transport {
         ensures
             r matches Ok(b) ==> file_probe(self.dir(), path@) == Ok::<bool, ()>(b),
             r is Err ==> file_probe(self.dir(), path@) is Err,
+    { unimplemented!() }
+
+    // DESTRUCTIVE (4.4): no function of this unit may remove a single file (Band::delete removes the band directory as
+    // a whole, below): the permission is never granted, a call added by an edit fails this labelled precondition.
+    #[verifier::external_body]
+    async fn remove_file(&self, relpath: &str) -> (r: std::result::Result<(), TransportError>)
+        requires
+            file_removal_granted(self.dir(), relpath.spec_bytes()), //# C07.backup_never_removes_archive_files
     { unimplemented!() }
 
     // DESTRUCTIVE (4.4): only what the caller's plan names may be removed.
